@@ -149,13 +149,36 @@ Definition inst_row (octx : option ctx) (r : srow) (log : list event)
   end.
 
 (* SheetParser.parse_next_row with include_column = "include_if": the inclusion cell is
-   evaluated FIRST; when its string form is "false" the row is parsed without templating
+   evaluated FIRST; when it reads as excluded the row is parsed without templating
    (context None) with the inclusion cell replaced by the literal "false", so that the other
    cells of an excluded row are never handed to the template engine.  Otherwise the row is
-   parsed as before (the inclusion cell is then rendered a second time by parse_row). *)
+   parsed as before (the inclusion cell is then rendered a second time by parse_row).
+
+   What "reads as excluded" means is a behaviour of the tree, [fx] (regenerated constant
+   falsy_include_if_skips_evaluation, probed through FlowParser):
+     fx = false   str(value).strip().lower() == "false"  — a falsy OBJECT that is not False
+                  ({@ none @}, {@ 0 @}, {@ [] @}) does not protect the other cells, although
+                  RowParser then reads the bool field as bool(value) = False and the row is skipped
+                  (finding falsy-include_if-row-evaluated);
+     fx = true    SheetParser._is_excluded: a string is excluded when it says "false", any other
+                  object when it is falsy — what RowParser will make of it. *)
 Definition cell_false : cell := CTmpl [NText ((* false *) [102; 97; 108; 115; 101])].
 
-Definition inst_row_incl (octx : option ctx) (r : srow) (log : list event)
+Definition precheck_excluded (fx : bool) (pi : pres) : result terr bool :=
+  match to_text pi with
+  | Err e => Err e
+  | Ok s =>
+    if str_eqb (lower (strip s)) ((* false *) [102; 97; 108; 115; 101]) then Ok true
+    else if fx then
+      match pi with
+      | PObj (VStr _) => Ok false
+      | PObj v => match truthy pnat v with Err e => Err e | Ok b => Ok (negb b) end
+      | _ => Ok false
+      end
+    else Ok false
+  end.
+
+Definition inst_row_incl_f (fx : bool) (octx : option ctx) (r : srow) (log : list event)
   : list event * result terr (bool * mainval) :=
   match octx with
   | None => inst_row None r log
@@ -164,14 +187,16 @@ Definition inst_row_incl (octx : option ctx) (r : srow) (log : list event)
     match parse_as_string_m penv pnat octx (r_inc r) with
     | Err e => (log0, Err e)
     | Ok pi =>
-      match to_text pi with
+      match precheck_excluded fx pi with
       | Err e => (log0, Err e)
-      | Ok s => if str_eqb (lower (strip s)) ((* false *) [102; 97; 108; 115; 101])
-                then inst_row None (mk_srow (rk r) cell_false (r_main r)) log0
-                else inst_row octx r log0
+      | Ok true => inst_row None (mk_srow (rk r) cell_false (r_main r)) log0
+      | Ok false => inst_row octx r log0
       end
     end
   end.
+
+(* the code of this run *)
+Definition inst_row_incl := inst_row_incl_f falsy_include_if_skips_evaluation.
 
 Inductive endres := EndYes | EndNo | EndErr.
 Definition end_check (bt : btype) (k : rkind) : endres :=
